@@ -1024,6 +1024,89 @@ theorem M33_interopArr2 {α : Type} (a : M33 α) :
 theorem M44_interopArr2 {α : Type} (a : M44 α) :
     Gen.M44.interopArr2 a = a := rfl
 
+/-! ## Copy assignment, copy constructor and element-list constructors, each on its own -/
+
+theorem V2_assign {α : Type} (a b : V2 α) :
+    Gen.V2.assign a b = b := rfl
+
+theorem V2_copyCtor {α : Type} (a : V2 α) :
+    Gen.V2.copyCtor a = a := rfl
+
+theorem V3_assign {α : Type} (a b : V3 α) :
+    Gen.V3.assign a b = b := rfl
+
+theorem V3_copyCtor {α : Type} (a : V3 α) :
+    Gen.V3.copyCtor a = a := rfl
+
+theorem V4_assign {α : Type} (a b : V4 α) :
+    Gen.V4.assign a b = b := rfl
+
+theorem V4_copyCtor {α : Type} (a : V4 α) :
+    Gen.V4.copyCtor a = a := rfl
+
+theorem C3_assign {α : Type} (a b : V3 α) :
+    Gen.C3.assign a b = b := rfl
+
+theorem C3_copyCtor {α : Type} (a : V3 α) :
+    Gen.C3.copyCtor a = a := rfl
+
+theorem C4_assign {α : Type} (a b : C4 α) :
+    Gen.C4.assign a b = b := rfl
+
+theorem C4_copyCtor {α : Type} (a : C4 α) :
+    Gen.C4.copyCtor a = a := rfl
+
+theorem Shear6_assign {α : Type} (a b : Shear6 α) :
+    Gen.Shear6.assign a b = b := rfl
+
+theorem Shear6_copyCtor {α : Type} (a : Shear6 α) :
+    Gen.Shear6.copyCtor a = a := rfl
+
+theorem Quat_assign {α : Type} (a b : Quat α) :
+    Gen.Quat.assign a b = b := rfl
+
+theorem Quat_copyCtor {α : Type} (a : Quat α) :
+    Gen.Quat.copyCtor a = a := rfl
+
+theorem M22_assign {α : Type} (a b : M22 α) :
+    Gen.M22.assign a b = b := rfl
+
+theorem M22_copyCtor {α : Type} (a : M22 α) :
+    Gen.M22.copyCtor a = a := rfl
+
+theorem M33_assign {α : Type} (a b : M33 α) :
+    Gen.M33.assign a b = b := rfl
+
+theorem M33_copyCtor {α : Type} (a : M33 α) :
+    Gen.M33.copyCtor a = a := rfl
+
+theorem M44_assign {α : Type} (a b : M44 α) :
+    Gen.M44.assign a b = b := rfl
+
+theorem M44_copyCtor {α : Type} (a : M44 α) :
+    Gen.M44.copyCtor a = a := rfl
+
+theorem V2_ctorElems {α : Type} (a : V2 α) :
+    Gen.V2.ctorElems a = a := rfl
+
+theorem V3_ctorElems {α : Type} (a : V3 α) :
+    Gen.V3.ctorElems a = a := rfl
+
+theorem V4_ctorElems {α : Type} (a : V4 α) :
+    Gen.V4.ctorElems a = a := rfl
+
+theorem C3_ctorElems {α : Type} (a : V3 α) :
+    Gen.C3.ctorElems a = a := rfl
+
+theorem C4_ctorElems {α : Type} (a : C4 α) :
+    Gen.C4.ctorElems a = a := rfl
+
+theorem Shear6_ctorElems {α : Type} (a : Shear6 α) :
+    Gen.Shear6.ctorElems a = a := rfl
+
+theorem M44_ctorRT {α : Type} [OfNat α 0] [OfNat α 1] (r : M33 α) (t : V3 α) :
+    Gen.M44.ctorRT r t = ⟨r.x00, r.x01, r.x02, 0, r.x10, r.x11, r.x12, 0, r.x20, r.x21, r.x22, 0, t.x, t.y, t.z, 1⟩ := rfl
+
 /-! ## Scalar on the left for Quat and Matrix
 
 The code computes `x * s` in every slot (`*_smul` above state exactly that); for a commutative scalar
